@@ -58,6 +58,22 @@ def make_cases(rng, tier, n):
                     c["init"].append(("file", p0 + b"/" + base + sfx, "g:%d:%d" % (rng.randrange(1000), rng.choice([0, 9, 400]))))
                 c["init"].append(("file", p0 + b"/." + base + b".tmp", "g:%d:3" % rng.randrange(1000)))
             stats["tmp_siblings"] = stats.get("tmp_siblings", 0) + 1
+        if i % 20 == 16 and fam != "unsafe":
+            # several NAMES of one inode inside the tracked tree (cp -al, rsync --link-dest, ln): in a directory output, in one of
+            # its sub-directories, and as a file output of its own when there is one; the harness also hard-links every other file
+            # whose bytes were already written somewhere (lib/s1.py Project.put). No random draw is used here.
+            spec_ = "g:%d:%d" % (700 + i, (7, 300, 65537)[(i // 20) % 3])
+            for a_ in s1eval.artifacts(c):
+                if a_[1] == "d":
+                    c["init"].append(("file", a_[0] + b"/hl-first.bin", spec_))
+                    c["init"].append(("dir", a_[0] + b"/hl-sub"))
+                    c["init"].append(("file", a_[0] + b"/hl-sub/hl-second.bin", spec_))
+                    c["init"].append(("file", a_[0] + b"/hl-third.bin", spec_))
+            for k_, e in enumerate(list(c["init"])):
+                if e[0] == "file" and any(e[1] == a_[0] for a_ in s1eval.artifacts(c)) and not e[2].startswith("sp:"):
+                    c["init"][k_] = ("file", e[1], spec_)            # a file artifact that is one more name of the same inode
+            c["hardlinks"] = True
+            stats["hardlinked_names"] = stats.get("hardlinked_names", 0) + 1
         if fam == "pipeline" and len(c["stages"]) >= 2:
             # later stages take an earlier stage's outputs (and a path inside a directory output) as inputs
             for k in range(1, len(c["stages"])):
